@@ -46,7 +46,11 @@ MANIFEST = dict(
          "prange: the body is summarised path by path with every parameter classed None / 0 / non-zero by the tests on the path; for each call form "
          "(1, 2, 3 arguments) that reaches a return the (start, stop, step) triple handed to range equals, as terms, the triple of the call. "
          "Fresh results: the anchored functions are not wrapped in a memoiser and the object isplit / splitarray / pmap return is neither read "
-         "from nor stored in a container that outlives the call.",
+         "from nor stored in a container that outlives the call. Description text: a taint analysis from the `desc` parameter of the wrappers "
+         "(through assignments, string building, attributes of package objects, package functions, nested functions and methods) decides that the "
+         "caller's text never becomes (part of) a %-format template or the receiver of .format(). Row count of isplit: a count written with case "
+         "distinctions (x if test else y, min / max, re-binding under a test) is compared with the requested nchunks case by case over all "
+         "(num >= 0, nchunks >= 1), each case a conjunction of integer-linear constraints decided by Fourier-Motzkin elimination.",
     note="Not decided: that the partition-exchange sort sorts (a proof obligation about the algorithm), process scheduling (delegated "
          "to Executor.map's documented ordering). Trusted: concurrent.futures.Executor.map order, divmod identity.",
     technique="static analysis: CFG path rules on loop bodies, interprocedural nullness / zeroness dataflow, vacated-slot typestate, who-may-call, "
@@ -56,7 +60,7 @@ MANIFEST = dict(
 
 # rules that keep their verdict however the code is laid out (decided by term equality, effect analysis or dominance over
 # resolved calls); every other rule of this check is a template rule (vcheck.core.Check.obt)
-SEMANTIC = ('R20.gen', 'R20.isplit', 'R20.null', 'R20.zero', 'R20.perm', 'R20.pmap', 'R20.fresh',
+SEMANTIC = ('R20.gen', 'R20.isplit', 'R20.null', 'R20.zero', 'R20.perm', 'R20.pmap', 'R20.fresh', 'R20.text',
             # decided by term equality of the range triple on every path and call form (parameter classes None / 0 / non-zero)
             'R20.fwd::esutil.pbar.prange::range-arguments-as-given',
             # decided by term equality on the evaluated element / range terms; they give "not recognised" themselves
@@ -76,6 +80,7 @@ def run(chk):
     chk.trusted = ["concurrent.futures.Executor.map preserves input order", "CPython ast"]
     chk.floor = 40
     generators(chk, repo)
+    text_as_data(chk, repo)
     freshness(chk, repo)
     nullness(chk, repo)
     pmap(chk, repo)
@@ -439,6 +444,191 @@ def generators(chk, repo):
             isinstance(r.value, ast.Call) and dotted_name(r.value.func) in ("pbar", "PBar") and len(r.value.args) == 1 and len(r.value.keywords) == 1
             and r.value.keywords[0].arg is None and isinstance(r.value.keywords[0].value, ast.Name) and r.value.keywords[0].value.id == kw for r in rets)
     chk.ob("R20.fwd", pr.qualname + "::is-pbar-of-range", ok, pr.where(), "prange(...) is pbar(range(*args), **kwargs)")
+
+
+# ---------------------------------------------------------------------------
+# R20.text: "for every option combination" includes every description string.  The description the caller passes is text that is written
+# out; a wrapper that lets it become (part of) a format template -- the left operand of the string % operator, the receiver of .format()
+# -- raises (or prints something else) as soon as the text holds a '%' or a brace, and then yields no item at all.  Decided by a taint
+# analysis: the source is the `desc` parameter of the functions of esutil.pbar; taint flows through assignments, string building,
+# attributes of package objects and calls (package functions, nested functions, methods of package classes built in the function are
+# followed with the receiving parameters tainted; the result of any other call is tainted when an argument or its receiver is).  Taint is
+# dropped by what no longer holds the text (len(), tests) and by the escaping idiom .replace('%', '%%').
+_TEXT_FREE = ("len", "bool", "int", "float", "isinstance", "hasattr", "type", "id", "callable", "ord", "hash", "print")
+_TEMPLATE_METHODS = ("format", "format_map", "substitute", "safe_substitute")
+
+
+class _Text:
+    def __init__(self, repo):
+        self.repo = repo
+        self.attrs = set()      # attribute names of package objects that hold the text (flow-insensitive, whole package)
+        self.reset()
+
+    def reset(self):
+        self.memo = {}          # (id(function node), tainted parameters) -> does it return the text?
+        self.sinks = {}         # id(node) -> (where, text)
+        self.unknown = []
+
+    # -- resolution -------------------------------------------------------
+    def target(self, fi, call, local):
+        """(FuncInfo, call with the receiver made explicit) of a call that runs package code, else (None, call)"""
+        f = call.func
+        if isinstance(f, ast.Name) and f.id in local:
+            return local[f.id], call
+        g = _callee(self.repo, fi, call)
+        if g is not None:
+            return g, call
+        d = dotted_name(f)
+        if d:
+            full = self.repo.resolve_name(fi.module, d)
+            if self.repo.class_of(full) is not None and self.repo.has(full + ".__init__"):
+                new = ast.Call(func=f, args=[ast.Constant(value=None)] + list(call.args), keywords=list(call.keywords))
+                return self.repo.func(full + ".__init__"), ast.copy_location(new, call)
+        try:
+            c2 = _explicit_self(self.repo, fi, call)
+        except Exception:
+            c2 = None
+        if c2 is not None:
+            g = _callee(self.repo, fi, c2)
+            if g is not None:
+                return g, c2
+        return None, call
+
+    # -- expressions ------------------------------------------------------
+    def tainted(self, e, names, fi, local):
+        T = lambda x: self.tainted(x, names, fi, local)      # noqa: E731
+        if e is None or isinstance(e, ast.Constant):
+            return False
+        if isinstance(e, ast.Name):
+            return e.id in names
+        if isinstance(e, ast.Attribute):
+            return e.attr in self.attrs or T(e.value)
+        if isinstance(e, ast.Compare):
+            return False
+        if isinstance(e, ast.UnaryOp) and isinstance(e.op, ast.Not):
+            return False
+        if isinstance(e, ast.IfExp):
+            return T(e.body) or T(e.orelse)
+        if isinstance(e, ast.Lambda):
+            return False
+        if isinstance(e, ast.Call):
+            f = e.func
+            if isinstance(f, ast.Name) and f.id in _TEXT_FREE:
+                return False
+            if isinstance(f, ast.Attribute) and f.attr == "replace" and len(e.args) >= 2 and isinstance(e.args[0], ast.Constant) \
+                    and e.args[0].value == "%" and isinstance(e.args[1], ast.Constant) and e.args[1].value == "%%":
+                return False            # escaped: every '%' of the text is a literal '%' of the template
+            g, c2 = self.target(fi, e, local)
+            if g is not None:
+                return self.call(fi, g, c2, names, local)
+            return (isinstance(f, ast.Attribute) and T(f.value)) or any(T(a.value if isinstance(a, ast.Starred) else a) for a in e.args) \
+                or any(T(k.value) for k in e.keywords)
+        return any(T(c) for c in ast.iter_child_nodes(e) if isinstance(c, ast.expr))
+
+    def call(self, fi, g, c, names, local):
+        """follow a call of package code: the parameters that receive the text are tainted there.  Returns: does the result hold the text?"""
+        params = [p for p in g.params if not p.startswith("*")]
+        star = [p[p.count("*"):] for p in g.params if p.startswith("*")]
+        got = set()
+        for i, a in enumerate(c.args):
+            if isinstance(a, ast.Starred):
+                if self.tainted(a.value, names, fi, local):
+                    self.unknown.append("%s: `%s`" % (fi.where(c), norm(c)))
+                continue
+            if self.tainted(a, names, fi, local):
+                if i < len(params):
+                    got.add(params[i])
+                elif star:
+                    got.add(star[0])
+        for k in c.keywords:
+            if self.tainted(k.value, names, fi, local):
+                if k.arg is None:
+                    self.unknown.append("%s: `%s`" % (fi.where(c), norm(c)))
+                elif k.arg in params:
+                    got.add(k.arg)
+                elif star:
+                    got.add(star[-1])
+        return self.function(g, frozenset(got))
+
+    # -- functions --------------------------------------------------------
+    def function(self, fi, params, closure=frozenset()):
+        key = (id(fi.node), params, closure)
+        if key in self.memo:
+            return bool(self.memo[key])
+        self.memo[key] = False          # recursion: assume the text does not come back, iterate below
+        fn = fi.node
+        local = {x.name: FuncInfo(fi.qualname + "." + x.name, fi.module, None, x, fi.path)
+                 for x in ast.walk(fn) if isinstance(x, (ast.FunctionDef, ast.AsyncFunctionDef)) and x is not fn}
+        names = set(params) | set(closure)
+        nodes = list(walk_no_nested(fn))
+        T = lambda x: self.tainted(x, names, fi, local)      # noqa: E731
+
+        def bind(t):
+            if isinstance(t, ast.Name):
+                names.add(t.id)
+            elif isinstance(t, (ast.Tuple, ast.List)):
+                for x in t.elts:
+                    bind(x)
+            elif isinstance(t, ast.Starred):
+                bind(t.value)
+            elif isinstance(t, ast.Attribute):
+                self.attrs.add(t.attr)
+            elif isinstance(t, ast.Subscript):
+                bind(t.value)
+        while True:
+            before = (len(names), len(self.attrs))
+            for x in nodes:
+                if isinstance(x, ast.Assign) and T(x.value):
+                    for t in x.targets:
+                        bind(t)
+                elif isinstance(x, (ast.AugAssign, ast.AnnAssign, ast.NamedExpr)) and x.value is not None and T(x.value):
+                    bind(x.target)
+                elif isinstance(x, (ast.For, ast.comprehension)) and T(x.iter):
+                    bind(x.target)
+                elif isinstance(x, ast.withitem) and x.optional_vars is not None and T(x.context_expr):
+                    bind(x.optional_vars)
+            if (len(names), len(self.attrs)) == before:
+                break
+        for x in nodes:
+            if isinstance(x, ast.BinOp) and isinstance(x.op, ast.Mod) and T(x.left):
+                self.sinks[id(x)] = (fi.where(x), "`%s`: the text is (part of) the template on the left of the %% operator in %s" % (norm(x), fi.name))
+            elif isinstance(x, ast.Call) and isinstance(x.func, ast.Attribute) and x.func.attr in _TEMPLATE_METHODS and T(x.func.value):
+                self.sinks[id(x)] = (fi.where(x), "`%s`: the text is (part of) the template .%s() is called on in %s" % (norm(x), x.func.attr, fi.name))
+            elif isinstance(x, ast.Call):
+                T(x)                    # calls whose result is dropped are followed as well
+        # nested functions see the names of this one
+        for g in local.values():
+            own = {a.arg for a in ast.walk(g.node.args) if isinstance(a, ast.arg)}
+            self.function(g, frozenset(), frozenset(names - own))
+        ret = any(isinstance(x, ast.Return) and x.value is not None and T(x.value) for x in nodes)
+        self.memo[key] = ret
+        return ret
+
+
+def text_as_data(chk, repo):
+    srcs = [fi for qn, fi in sorted(repo.funcs.items()) if getattr(fi.module, "name", fi.module) == "esutil.pbar" and "desc" in fi.params]
+    if not srcs:
+        chk.ob("R20.text", "esutil.pbar.pbar::description-is-never-a-format-template", None, "esutil/pbar.py",
+               "no function of esutil.pbar takes the description under the name `desc`: where the text goes is not followed")
+        return
+    for fi in srcs:
+        tx = _Text(repo)
+        try:
+            while True:
+                n = len(tx.attrs)
+                tx.reset()
+                tx.function(fi, frozenset(["desc"]))
+                if len(tx.attrs) == n:
+                    break
+            sinks = sorted(tx.sinks.values())
+            ok = False if sinks else (None if tx.unknown else True)
+            found = "; ".join("%s %s" % s for s in sinks) or ("not followed: %s" % tx.unknown if tx.unknown else "it only ever is data")
+            where = sinks[0][0] if sinks else fi.where()
+        except RecursionError:
+            ok, found, where = None, "the flow of the text could not be followed", fi.where()
+        chk.ob("R20.text", fi.qualname + "::description-is-never-a-format-template", ok, where,
+               "the description the caller passes to %s is written out as it is, whatever characters it holds: it never becomes (part of) "
+               "a %%-format template or the receiver of .format() (%s)" % (fi.name, found))
 
 
 # ---------------------------------------------------------------------------
@@ -4213,6 +4403,9 @@ class _IsplitEval(_Sx):
         if isinstance(t, ast.UnaryOp) and isinstance(t.op, ast.Not):
             c = self.cond(t.operand)
             return sp.Not(c) if c is not None else None
+        if isinstance(t, ast.BoolOp) and isinstance(t.op, ast.And):
+            cs = [self.cond(v) for v in t.values]
+            return sp.And(*cs) if all(c is not None for c in cs) else None
         if isinstance(t, ast.Compare) and len(t.ops) == 1 and isinstance(t.ops[0], (ast.Lt, ast.LtE, ast.Gt, ast.GtE)):
             a, b = self.ev(t.left), self.ev(t.comparators[0])
             if self.scalar(a) and self.scalar(b) and _known(a) and _known(b):
@@ -4453,7 +4646,9 @@ class _IsplitEval(_Sx):
             for x in arm:
                 ok = (isinstance(x, ast.Assign) and len(x.targets) == 1 and isinstance(x.targets[0], ast.Name)) or \
                     (isinstance(x, ast.AugAssign) and isinstance(x.target, ast.Name)) or isinstance(x, ast.Pass)
-                if not ok or any(isinstance(y, ast.Call) for y in ast.walk(x)):
+                # calls: only the pure integer functions the evaluation knows (no effect on anything else)
+                if not ok or any(isinstance(y, ast.Call) and not (dotted_name(y.func) in ("min", "max", "int", "operator.index") and not y.keywords
+                                                                  and not any(isinstance(a, ast.Starred) for a in y.args)) for y in ast.walk(x)):
                     return False
                 t = x.targets[0] if isinstance(x, ast.Assign) else getattr(x, "target", None)
                 if t is not None and isinstance(self.env.get(t.id), (_Tab, _FieldView, _Rep, _Cum, _Seq)):
@@ -4815,6 +5010,166 @@ def _closed_form_points(seq, num, nch):
         return None
 
 
+# ---------------------------------------------------------------------------
+# a count written with case distinctions (x if test else y, min / max) against the requested number, for every input: the cases are
+# split, each case is a conjunction of integer-linear constraints over the parameters, decided by Fourier-Motzkin elimination (exact for
+# integers while the eliminated variable has unit coefficients on one side)
+def _lin(e, syms):
+    """an integer-linear term as {symbol: coefficient, 1: constant}, else None"""
+    try:
+        e = sp.expand(e)
+        if not (e.free_symbols <= set(syms)) or e.atoms(sp.core.function.AppliedUndef) or e.has(sp.Min, sp.Max, sp.Piecewise):
+            return None
+        if not syms or not e.free_symbols:
+            return {1: int(e)} if e.is_Integer else None
+        p = sp.Poly(e, *syms)
+        if p.total_degree() > 1:
+            return None
+        out = {}
+        for mon, c in p.terms():
+            if not c.is_Integer:
+                return None
+            if sum(mon) == 0:
+                out[1] = int(c)
+            else:
+                out[syms[list(mon).index(1)]] = int(c)
+        return out
+    except Exception:
+        return None
+
+
+def _rel_constraints(c, syms):
+    """a sympy relation between integer-linear terms as a list of constraints `term >= 0`, else None"""
+    if c == True:                     # noqa: E712 (a sympy truth value)
+        return []
+    if isinstance(c, (sp.StrictLessThan, sp.StrictGreaterThan)):
+        ls = [_lin(c.gts - c.lts - 1, syms)]
+    elif isinstance(c, (sp.LessThan, sp.GreaterThan)):
+        ls = [_lin(c.gts - c.lts, syms)]
+    elif isinstance(c, sp.Equality):
+        ls = [_lin(c.lhs - c.rhs, syms), _lin(c.rhs - c.lhs, syms)]
+    else:
+        return None
+    return None if any(x is None for x in ls) else ls
+
+
+def _fm_sat(cons):
+    """is there an integer point with every constraint {symbol: coefficient, 1: constant} >= 0?  True / False (not even a rational one) /
+    None (a rational one exists, an integer one is not established)"""
+    cons = [dict(c) for c in cons]
+    exact = True
+    for _ in range(12):
+        live = []
+        for c in cons:
+            if any(v != 1 and k for v, k in c.items()):
+                live.append(c)
+            elif c.get(1, 0) < 0:
+                return False
+        cons = live
+        vs = sorted({v for c in cons for v, k in c.items() if v != 1 and k}, key=str)
+        if not vs:
+            return True if exact else None
+        v = min(vs, key=lambda w: (max(abs(c.get(w, 0)) for c in cons), str(w)))
+        lo = [c for c in cons if c.get(v, 0) > 0]
+        hi = [c for c in cons if c.get(v, 0) < 0]
+        if lo and hi and not (all(c[v] == 1 for c in lo) or all(c[v] == -1 for c in hi)):
+            exact = False
+        new = [c for c in cons if not c.get(v, 0)]
+        for a in lo:
+            for b in hi:
+                ka, kb = -b[v], a[v]
+                d = {}
+                for k in set(a) | set(b):
+                    if k != v:
+                        d[k] = ka * a.get(k, 0) + kb * b.get(k, 0)
+                new.append(d)
+        if len(new) > 200:
+            return None
+        cons = new
+    return None
+
+
+def _term_cases(t, depth=0):
+    """[(conditions, term)]: the term with every `x if c else y`, min and max replaced case by case (the cases cover every input)"""
+    if depth > 6:
+        raise ValueError("too many case distinctions")
+    for sub in sp.postorder_traversal(t):          # innermost first: the tests of a case never hold cases themselves
+        if isinstance(sub, sp.Piecewise):
+            out, neg = [], []
+            for v, c in sub.args:
+                conds = neg + ([c] if c != True else [])           # noqa: E712
+                out += [(conds + cs, tt) for cs, tt in _term_cases(t.xreplace({sub: v}), depth + 1)]
+                if c == True:                                       # noqa: E712
+                    return out
+                neg = neg + [sp.Not(c)]
+            raise ValueError("a case distinction without a last arm")
+        if isinstance(sub, (sp.Min, sp.Max)):
+            out = []
+            for a in sub.args:
+                conds = [(sp.Le(a, b) if isinstance(sub, sp.Min) else sp.Ge(a, b)) for b in sub.args if b is not a]
+                out += [(conds + cs, tt) for cs, tt in _term_cases(t.xreplace({sub: a}), depth + 1)]
+            return out
+    return [([], t)]
+
+
+def _has_cases(t):
+    return isinstance(t, sp.Basic) and t.has(sp.Piecewise, sp.Min, sp.Max)
+
+
+def _equal_on_domain(t, want, domain):
+    """is the term t (with case distinctions) equal to `want` for every integer input of the domain (relations that hold for every call
+    that returns)?  Returns (True, None) / (False, "the case in which it differs") / (None, None)"""
+    try:
+        syms = sp.sympify(t).free_symbols | want.free_symbols
+        for c in domain:
+            syms = syms | c.free_symbols
+        syms = sorted(syms, key=str)
+        if any(str(s_).startswith(("?", "@")) for s_ in syms):
+            return None, None
+        dom = []
+        for c in domain:
+            r = _rel_constraints(c, syms)
+            if r is None:
+                return None, None
+            dom += r
+        undecided = False
+        for conds, tt in _term_cases(sp.sympify(t)):
+            cons = list(dom)
+            flat = []
+            for c in conds:
+                flat += list(c.args) if isinstance(c, sp.And) else [c]
+            for c in flat:
+                r = None if _has_cases(c) else _rel_constraints(c, syms)
+                if r is None:
+                    cons = None
+                    break
+                cons += r
+            if cons is None:
+                undecided = True
+                continue
+            here = _fm_sat(cons)
+            if here is False:
+                continue                # no input gets into this case
+            d = _lin(tt - want, syms)
+            if d is None:
+                undecided = True
+                continue
+            if not any(k for v, k in d.items()):
+                continue                # the same term
+            up = dict(d)
+            up[1] = up.get(1, 0) - 1                       # t - want >= 1
+            dn = {v: -k for v, k in d.items()}
+            dn[1] = dn.get(1, 0) - 1                       # want - t >= 1
+            ru, rd = _fm_sat(cons + [up]), _fm_sat(cons + [dn])
+            if ru is True or rd is True:
+                return False, "`%s` in the case %s" % (tt, " and ".join(str(c) for c in conds) or "of every input")
+            if not (ru is False and rd is False):
+                undecided = True
+        return (None, None) if undecided else (True, None)
+    except Exception:
+        return None, None
+
+
 def chunking(chk, repo):
     fi = repo.func("esutil.algorithm.isplit")
     chk.analysed_unit(fi.qualname)
@@ -4880,6 +5235,8 @@ def chunking(chk, repo):
         s, e = tab.fields.get("start"), tab.fields.get("end")
         if isinstance(s, tuple) and isinstance(e, tuple):
             okc = s[0] is e[0] and _teq(s[1], 0) is True and _teq(e[1], 1) is True and _teq(tab.n, nch) is True
+            if _has_cases(tab.n) and s[0] is e[0] and _teq(s[1], 0) is True and _teq(e[1], 1) is True:
+                okc = _equal_on_domain(tab.n, nch, [sp.Ge(num, 0), sp.Ge(nch, 1)])[0]     # see ::returns-subs
     chk.ob("R20.isplit", q + "::contiguous-ranges", okc, fi.where(), "chunk i is [div[i], div[i+1]) for every i in 0..nchunks-1: contiguous, in order, covering 0..num")
     cfg = cfg_of(fi)
     view = cfg.view()
@@ -4892,9 +5249,17 @@ def chunking(chk, repo):
         okr = None if (rn or elsewhere) else False
     chk.ob("R20.isplit", q + "::rejects-nonpositive-nchunks", okr, fi.where(), "nchunks <= 0 is rejected")
     okt = None
+    rows = ""
     if len(evl.ret) == 1:
         okt = (tab is not None and _teq(tab.n, nch) is True) if (tab is not None or isinstance(evl.ret[0], (sp.Basic, _Rep, _Cum))) else None
-    chk.ob("R20.isplit", q + "::returns-subs", okt, fi.where(), "returns the table of nchunks (start, end) ranges")
+        if tab is not None and _has_cases(tab.n):
+            # a row count with case distinctions (clamped with min / max, re-bound under a test): compared with the requested nchunks in
+            # every case, for the inputs the function returns for (num >= 0, nchunks >= 1 past the rejection guard)
+            okt, differs = _equal_on_domain(tab.n, nch, [sp.Ge(num, 0), sp.Ge(nch, 1)])
+            if differs:
+                rows = "; the number of rows is %s" % differs
+    chk.ob("R20.isplit", q + "::returns-subs", okt, fi.where(), "returns the table of nchunks (start, end) ranges: one row for every chunk that was "
+           "asked for, whatever num is (chunks beyond num are empty ranges, not left out)" + rows)
     splitarray(chk, repo)
 
 
